@@ -148,13 +148,17 @@ class RefWorld:
         vals = np.stack([F[k, jj, ii] for k in (klo, khi) for jj in (j0, j1) for ii in (i0, i1)])
         return vals.min(axis=0), vals.max(axis=0)
 
-    def velocity(self, X, Y, Z, t: float, with_bounds: bool = False):
-        """velocity [m/s] in simulation direction at model time t (float model step)"""
+    def velocity(self, X, Y, Z, t: float, with_bounds: bool = False, vert=None):
+        """velocity [m/s] in simulation direction at model time t (float model step);
+        vert = (klo, khi, a) fixes the level pair and weight (e.g. those of the cell a step started in)"""
         X = np.asarray(X, dtype=float)
         Y = np.asarray(Y, dtype=float)
         Z = np.asarray(Z, dtype=float)
         U, V = self.uv_fields(t)
-        klo, khi, a, _ = self.vertical(X, Y, Z)
+        if vert is not None:
+            klo, khi, a = vert
+        else:
+            klo, khi, a, _ = self.vertical(X, Y, Z)
         u = self._sample(U, X - 0.5, Y, klo, khi, a)
         v = self._sample(V, X, Y - 0.5, klo, khi, a)
         if with_bounds:
